@@ -297,6 +297,18 @@ def py_restrict(full, nsel, esel, nm, em):
             "rest": full["rest"]}
 
 
+def norm_ids(r):
+    """ids beyond 2^53 come back from the driver as decimal strings"""
+    def fix(g):
+        g["node_ids"] = [int(x) for x in g["node_ids"]]
+        g["edge_ids"] = [[int(a), int(b)] for a, b in g["edge_ids"]]
+    if isinstance(r, dict) and "ok" in r:
+        fix(r["ok"])
+    elif isinstance(r, dict) and "node_ids" in r:
+        fix(r)
+    return r
+
+
 def as_dicts(g):
     """dict order of props/metadata is not part of the property: compare as mappings"""
     return {**g, "node_props": {p["name"]: p for p in g["node_props"]}, "edge_props": {p["name"]: p for p in g["edge_props"]},
@@ -458,12 +470,100 @@ def random_group(rng, big=False):
                                    missing=rng.random() < 0.4, layout=layout, rank=rng.choice([1, 1, 2, 0])))
         return out
     g = mk_graph(rng, n, e, ids=ids, nprops=[], eprops=[])
-    g["nprops"], g["eprops"] = props("n", n), props("e", len(g["edges"]))
+    shared = rng.random() < 0.3        # node and edge properties with the same names
+    g["nprops"], g["eprops"] = props("p" if shared else "n", n), props("p" if shared else "e", len(g["edges"]))
     writer = "geff" if (rng.random() < 0.35 and layout == "canon" and n > 0 and len(g["edges"]) > 0) else "direct"
     nn, en = [p["name"] for p in g["nprops"]], [p["name"] for p in g["eprops"]]
     return {"graph": g, "fmt": rng.choice([2, 3]), "writer": writer, "calls": call_orders(rng, nn, en),
             "queries": [{"nm": rand_mask(rng, n), "em": rand_mask(rng, len(g["edges"]))} for _ in range(6)],
             "fresh": rng.random() < 0.3, "storepath": rng.random() < 0.15, "stream": "random-big" if big else "random"}
+
+
+def sparse_group(rng):
+    """larger graphs (N 20..80) with sparse / huge / unsorted ids, linear tracks with divisions or random edges, and
+    masks that keep most nodes but drop interior nodes of degree >= 2 (numpy's isin switches to its sort-based
+    path for such id sets; an edge (kept, dropped) must not survive)"""
+    n = rng.randint(20, 80)
+    scheme = rng.choice(["thousand", "bits48", "int64-top", "uint64-top", "mixed-sign", "dense-offset"])
+    dt = "int64"
+    if scheme == "thousand":
+        ids = [1000 * k + 7 for k in range(n)]
+    elif scheme == "bits48":
+        ids = sorted({rng.randint(2**40, 2**48) for _ in range(n)})
+    elif scheme == "int64-top":
+        ids = [2**63 - 1 - k * rng.randint(1, 10**6) - k for k in range(n)]
+        ids = sorted(set(ids))
+    elif scheme == "uint64-top":
+        dt = "uint64"
+        ids = sorted({2**64 - 1 - k * 977 * rng.randint(1, 10**9) for k in range(n)})
+    elif scheme == "mixed-sign":
+        ids = sorted({rng.randint(-2**62, 2**62) for _ in range(n)})
+    else:
+        ids = [10**12 + 3 * k for k in range(n)]
+    n = len(ids)
+    if rng.random() < 0.6:
+        rng.shuffle(ids)
+    edges = []
+    if rng.random() < 0.6:
+        # linear tracks: chains over consecutive positions, occasionally a division
+        start = 0
+        while start < n - 1:
+            ln = rng.randint(3, 15)
+            chain = list(range(start, min(n, start + ln)))
+            edges += [[ids[a], ids[b]] for a, b in zip(chain, chain[1:])]
+            if len(chain) > 4 and rng.random() < 0.5:
+                edges.append([ids[chain[1]], ids[chain[-1]]])
+            start += ln
+    else:
+        for _ in range(rng.randint(n, 3 * n)):
+            a, b = rng.sample(range(n), 2)
+            edges.append([ids[a], ids[b]])
+    deg = {}
+    for u, v in edges:
+        deg[u] = deg.get(u, 0) + 1
+        deg[v] = deg.get(v, 0) + 1
+    interior = [i for i, x in enumerate(ids) if deg.get(x, 0) >= 2]
+    e = len(edges)
+    g = {"ids": ids, "edges": edges, "id_dtype": dt,
+         "nprops": [mk_prop(rng, "t", n, "fixed", "int64")],
+         "eprops": [mk_prop(rng, "w", e, "fixed", "float64"), mk_prop(rng, "v", e, "vlen", "int64", missing=rng.random() < 0.5)]}
+    queries = []
+    for _ in range(8):
+        nm = [True] * n
+        for i in rng.sample(interior, min(len(interior), rng.choice([1, 1, 2, 3, 5]))) if interior else []:
+            nm[i] = False
+        if rng.random() < 0.3:
+            for i in rng.sample(range(n), rng.randint(0, n // 6)):
+                nm[i] = False
+        queries.append({"nm": nm, "em": rng.choice([None, None, [rng.random() < 0.8 for _ in range(e)]])})
+    return {"graph": g, "fmt": rng.choice([2, 3]), "writer": "direct",
+            "calls": [{"k": "n", "names": None}, {"k": "e", "names": None}], "queries": queries, "stream": "sparse-ids"}
+
+
+def shared_name_groups(rng):
+    """node and edge properties that SHARE names (same and different dtype / var-length), every combination of a
+    node selection with an edge selection: the two metadata dicts must be pruned independently"""
+    n, e = 3, 3
+    ids = [11, 5, 8]
+    edges = [[11, 5], [5, 8], [8, 11]]
+    nprops = [mk_prop(rng, "a", n, "fixed", "float64"), mk_prop(rng, "b", n, "vlen", "int64"),
+              mk_prop(rng, "c", n, "fixed", "int32", trail=(2,), missing=True)]
+    eprops = [mk_prop(rng, "a", e, "fixed", "float64"), mk_prop(rng, "b", e, "fixed", "str", missing=True),
+              mk_prop(rng, "d", e, "vlen", "float64")]
+    nprops[0]["unit"], eprops[0]["unit"] = "um", "s"
+    nprops[0]["description"], eprops[1]["description"] = "node a", "edge b"
+    g = {"ids": ids, "edges": edges, "id_dtype": "int64", "nprops": nprops, "eprops": eprops}
+    queries = [{"nm": None, "em": None}, {"nm": [True, False, True], "em": None}, {"nm": None, "em": [False, True, True]},
+               {"nm": [True, True, False], "em": [True, True, False]}]
+    groups = []
+    for a in subsets(["a", "b", "c"]):
+        for b in subsets(["a", "b", "d"]):
+            calls = [{"k": "n", "names": a}, {"k": "e", "names": b}]
+            if len(groups) % 3 == 1:
+                calls.reverse()
+            groups.append({"graph": g, "fmt": 2 + len(groups) % 2, "writer": "direct", "calls": calls, "queries": queries,
+                           "rtm": [a, b], "stream": "shared-names"})
+    return groups
 
 
 def malformed_group(rng):
@@ -625,12 +725,21 @@ def run_groups(ck, groups, drv):
         else:
             model, spec = {}, {}
             for (gi, kind), a in zip(where, answers):
+                for r in [a.get("full")] + list(a.get("answers", [])) + list(a.get("spec", [])):
+                    norm_ids(r)
                 if "err" in a and len(a) == 1:
                     ck.corr_broken("C09:driver", {k: groups[gi][k] for k in ("graph", "calls")}, None, a)
                     continue
                 (model if kind == "m" else spec)[gi] = a if kind == "m" else a["spec"]
     for gi, (c, im) in enumerate(zip(groups, ims)):
-        judge(ck, c, im, None if model is None else model.get(gi), None if spec is None else spec.get(gi))
+        try:
+            judge(ck, c, im, None if model is None else model.get(gi), None if spec is None else spec.get(gi))
+        except Exception as ex:  # noqa: BLE001  (an exception of the oracle is a broken check, never a crash or a silent pass)
+            import traceback
+
+            ck.corr_broken("C09:oracle-exception", {k: c.get(k) for k in ("graph", "calls", "fmt", "writer")},
+                           {k: v for k, v in im.items() if k not in ("raw", "full", "answers", "fresh")},
+                           f"{type(ex).__name__}: {ex}\n{traceback.format_exc()[-800:]}")
 
 
 def run(ck: common.Check):
@@ -640,7 +749,9 @@ def run(ck: common.Check):
                "2^N+1 node masks x all 2^E+1 edge masks x property subsets + seeded random stores (N<=60, both zarr "
                "formats, direct zarr writer and geff writer, 0-4 properties of 7 dtypes/6 trailing shapes, var-length rank "
                "0-2) x random call orders x random masks + a malformed stream (unknown names, wrong mask lengths, "
-               "dangling stored edges: correspondence only); non-trivial = non-empty graph with a mask or a loaded "
+               "dangling stored edges: correspondence only) + all 8x8 selections of a graph whose node and edge properties "
+               "share names + graphs of 20-80 nodes with sparse / 48-bit / near-dtype-limit / unsorted ids (tracks with divisions, "
+               "random edges) under masks dropping interior nodes of degree >= 2; non-trivial = non-empty graph with a mask or a loaded "
                "property; distinct = distinct (ids, call sequence, masks)")
     groups = list(corpus())
     groups += exhaustive_groups(ck)
@@ -649,8 +760,14 @@ def run(ck: common.Check):
         groups.append(random_group(ck.rng, big=(i % 12 == 0)))
     for i in range(60 if ck.quick else 1200):
         groups.append(malformed_group(ck.rng))
+    groups += shared_name_groups(ck.rng)
+    for i in range(80 if ck.quick else 1500):
+        groups.append(sparse_group(ck.rng))
     ck.extra["groups"] = len(groups)
-    ck.extra["exhaustive"] = "N,E<=4 masks x subsets of the 4-property graph (subsets sampled round-robin in the quick tier)"
+    ck.extra["exhaustive"] = not ck.quick
+    ck.extra["exhaustive_space"] = ("N,E<=4: all masks x property subsets of the 4-property graph (thorough: every (N,E); all 256 "
+                                    "subset pairs for (4,4),(2,3),(1,1), 24 sampled pairs elsewhere; quick: 8 sizes, subsets paired "
+                                    "round-robin) + all 8x8 selections of a graph whose node and edge properties share names")
     drv = ck.driver()
     run_groups(ck, groups, drv)
     ck.assumptions += [
